@@ -29,7 +29,7 @@ for m in muts:
             continue
         open(path, "w").write(s.replace(m["old"], m["new"], 1))
         for p in props:
-            if p not in claimed and p not in want:
+            if p not in claimed and p not in want and m["id"] not in want:
                 rows.append((m["id"], p, "not claimed yet"))
                 continue
             env = dict(os.environ, PYREPSEQ_REPO=scratch)
